@@ -306,6 +306,38 @@ def run_formulas(formulas, vals, ctx, tag):
                     if not same_:
                         report(r, ID, None, dict(case, staged='set_cells(first half), evaluate, set_cells(second half), evaluate'), o2.brief(), out.brief(),
                                monitor='overrides-staged-vs-at-once')
+        # operands "whether from the workbook or from an override": two Executors alive on the SAME class object, one with overrides and
+        # one without (then the other way round), asked in turn - each answers from its own operands
+        if book.cls is not None and len(vals) >= 2:
+            addrs = list(where)[:12]
+            va, vb = VALUATIONS[vals[1]], VALUATIONS[vals[0]]
+
+            def fresh_values(val):
+                return [book.value(0, a, [(0, c_, v) for c_, v in val]) for a in addrs]
+            exp_a, exp_b = fresh_values(va), fresh_values(vb)
+
+            def interleaved():
+                ea = pipeline.Executor().set_executed_class(class_object=book.cls)
+                eb = pipeline.Executor().set_executed_class(class_object=book.cls)
+                if va:
+                    ea.set_cells([pipeline.ncell(0, *wbspec.rc(c_), v) for c_, v in va])
+                if vb:
+                    eb.set_cells([pipeline.ncell(0, *wbspec.rc(c_), v) for c_, v in vb])
+                got = []
+                for a in addrs:
+                    rr_, cc_ = wbspec.rc(a)
+                    q = lambda e_: pipeline.guarded(lambda: e_.get_cell(pipeline.ncell(0, rr_, cc_)).value, 'evaluate')      # noqa: E731
+                    got.append((q(ea), q(eb), q(ea)))
+                return got
+            res = pipeline.guarded(interleaved, 'evaluate')
+            if res.ok:
+                for a, (ga, gb, ga2), xa, xb in zip(addrs, res.value, exp_a, exp_b):
+                    r.ev()
+                    r.count('interleaved_executor_checks')
+                    same3 = lambda g, x: (g.ok == x.ok) and (not x.ok or (type(g.value) is type(x.value) and g.value == x.value))      # noqa: E731
+                    if not (same3(ga, xa) and same3(gb, xb) and same3(ga2, xa)):
+                        report(r, ID, None, {'formula': where[a], 'valuation_A': va, 'valuation_B': vb, 'sequence': 'A.get, B.get, A.get on one class object'},
+                               {'A': ga.brief(), 'B': gb.brief(), 'A_again': ga2.brief()}, {'A': xa.brief(), 'B': xb.brief()}, monitor='two-executors-one-class')
         if off == 0:
             r.sample({'formulas': batch[:4], 'valuations': [VALUATIONS[v] for v in vals][:2]})
 
